@@ -447,9 +447,7 @@ def classify(d: dict) -> Dict[str, int]:
             if ap[0] == "lit":
                 return "other"
             if ap[0] in ("any", "all"):
-                if ap[1][1]:
-                    return "exists" if ap[0] == "any" else "other"
-                continue
+                return "exists" if ap[0] == "any" else "other"
             if tfilter(ap[1], end):
                 return "other"
             f = first_cond(ap[2], end)
@@ -520,7 +518,7 @@ def snippet(d: dict) -> str:
             "print('returned', out, 'expected', c11.py_spec(d, built))") % json.dumps(d)
 
 
-KF_CLASSES = ("K_emptylist", "K_emptynested", "K_existsfirst", "K_unrelated")
+KF_CLASSES = ("K_emptynested", "K_unrelated")   # K_emptylist (C11-b) and K_existsfirst (C11-c) are repaired: counted, never tolerated
 UNSPEC = ("U_in", "U_all_scalar")
 
 
@@ -537,12 +535,11 @@ def run(tier: str, seed: int, replay=None) -> int:
         "real Attribute nodes (_is_iterable_, _type_), pattern -> kwargs builder, outcome = set of identities",
     ]
     rep.assume = ["objects' == is an equivalence that respects identity (checked on every generated world)",
-                  "attribute values conform to the declared field types (no None, no foreign classes); checked per case by typed_b",
-                  "the domain has no duplicate element (let() de-duplicates by identity)"]
+                  "attribute values conform to the declared field types (no None, no foreign classes); checked per case by typed_b"]
     rep.rule = ("3000 (quick) / 12000 (thorough) cases after the corpus: random worlds (2-3 knobs, 2-4 boxes, 2-5 units, 3-6 racks; value-equal twins of a box 30% / unit 40% / rack 50%), root type "
                 "Rack/WideRack/Unit, random patterns of depth <= 3 with 0-3 keywords per level in random order: scalar literal, object "
                 "literal, literal list, match_any/match_all over value lists, nested match/match_any with declared / narrower / wider / "
-                "missing / unrelated type; 35% of the patterns may leave F11 (empty lists, in_ on scalars, empty nested matches); "
+                "missing / unrelated type; 35% of the patterns may also use empty value lists, in_ on scalars, match_all on scalars, empty nested matches; "
                 "distinct = distinct (world, pattern, domain); non-trivial = the expected answer is neither empty nor the whole domain of T")
     ok_spec, log = core.coq_make(["Base/Sx.vo", "Eql/MatchSpecShow.vo"])
     rep.oblige("build:spec", ok_spec, "" if ok_spec else core.first_error(log))
@@ -593,6 +590,8 @@ def run(tier: str, seed: int, replay=None) -> int:
         for k, n in kinds(d["pat"]).items():
             bump("kind:" + k if k != "depth" else f"depth:{n}", n if k != "depth" else 1)
         bump("in_F" if inf else "outside_F")
+        for k in cl:
+            bump("class:" + k)
         bump("nontrivial" if nontrivial else "trivial")
         if impl[0] != -1 and impl[1] != len(impl[0]):
             bump("answers_with_repeats")
